@@ -189,6 +189,39 @@ func runAG(c *Ctx) (obls []Obl) {
 	seg.Stop = func(from, to *ssa.BasicBlock) bool {
 		return (to == l1.Header && l1.Body[from]) || (l1.Body[from] && !l1.Body[to])
 	}
+	// the keys of the bucket map are never nil: every insertion uses the
+	// address of a new object or the result of merge (a new object: AG-fresh-key).
+	// A "found" flag replaced by the matched key itself relies on it.
+	keysNonNil := true
+	for _, f := range mapFns {
+		for _, b := range f.Blocks {
+			for _, in := range b.Instrs {
+				mu, ok := in.(*ssa.MapUpdate)
+				if !ok {
+					continue
+				}
+				switch k := mu.Key.(type) {
+				case *ssa.Alloc:
+				case *ssa.Call:
+					if cal := k.Call.StaticCallee(); cal == nil || cal.Name() != "merge" {
+						keysNonNil = false
+					}
+				default:
+					keysNonNil = false
+				}
+			}
+		}
+	}
+	if keysNonNil {
+		seg.Decide = func(atom *Expr, _ *pathState) (bool, bool) {
+			if atom.Op == OpBin && atom.Tok == token.EQL && len(atom.Args) == 2 && atom.Args[1].isNilConst() {
+				if k := atom.Args[0]; k.Op == OpExtract && k.ID == 1 && k.Args[0].Op == OpNext {
+					return false, true
+				}
+			}
+			return false, false
+		}
+	}
 	seg.Explore()
 	c.stat("AG", "find_or_create_paths", len(seg.Paths))
 	isSimilar := isCallTo(stackPkg, "(*Signature).similar")
